@@ -58,13 +58,15 @@ impl InstructionGenerator {
         match step {
             Some(s) => {
                 let step_pos = s.pos();
-                // load 0 to B
-                self.push_load(Variant::VInteger(0), pos);
-                self.push(Instruction::CopyAToB, pos);
-                // load step to A
+                // load step to A (before B is used: the step expression is free to use A and B)
                 self.generate_expression_instructions(s);
                 // A to D (step is in D)
                 self.push(Instruction::CopyAToD, pos);
+                // load 0 to B
+                self.push_load(Variant::VInteger(0), pos);
+                self.push(Instruction::CopyAToB, pos);
+                // step back to A
+                self.push(Instruction::CopyDToA, pos);
                 // is step <> 0 ?
                 self.push(Instruction::NotEqual, pos);
                 self.jump_if_false("zero", pos);
